@@ -2,6 +2,12 @@
 DEFERRED = "rules for this property are not armed yet (build order: DESIGN.md Appendix D); not claimed until a self-tested rule exists"
 
 CLAIMS = {
+    "C14": {
+        "level": "other",
+        "text": "OK-packet layout on every Ok path with both counts being the u64 parameters handed unmodified to the library lenenc writer; def-use of (rows, last_insert_id) from complete_one through the Finalizer aggregate into the OK writer's parameters in order; zero-column counter: +1 per end_row on every zero-column path, untouched by write_col, exactly one end_row per write_row, starts at 0, and completion reads the counter on a path on which nothing may have modified it (clobber-aware path-precise load) with last_insert_id 0.",
+        "note": "Trusted: mysql_common::write_lenenc_int size classes.",
+        "technique": "emission-sequence analysis + path-precise def-use with memory clobber tracking (field-write summaries)",
+    },
     "C19": {
         "level": "other",
         "text": "Error-discipline rules on every Result-producing call site in non-test code (def-use to `?`, tail return, adaptor chains or an explicit match whose Err arm cannot reach an Ok return), the reader's Ok(None) only under read==0 && empty buffer with the sibling EOF-inside-packet path returning Err, Ok exits of the command loop only from the reader's None arm or Quit, every reader result in the handshake turned into an error on None, identity conversion of shim errors, no shim callback reachable after an error-building block, and an inventory of unwrap/expect on connection-touching io results (two documented Drop panics are known findings).",
